@@ -19,23 +19,30 @@
 (* the extra bytes arrive and has finished (trailing bytes after a complete *)
 (* transfer are not claimed by C19's check).                                *)
 (*                                                                         *)
+(* `ann`: what the offer announced (size and hash, one of them, nothing;    *)
+(* a size of 0 means "not announced").  Without an announced size the      *)
+(* receiver learns the end of the data from the end of the connection and  *)
+(* the sender from the end of its device.                                  *)
 (* Intended behaviour; in particular an empty file (n = 0) completes.       *)
 (***************************************************************************)
 EXTENDS Naturals, Sequences, TLC
 
-CONSTANTS Sizes, MaxFaults, FaultKinds, MaxHist
+CONSTANTS Sizes, Anns, MaxFaults, FaultKinds, MaxHist
 
-VARIABLES n, sState, sErr, sent, rState, rErr, got, wire, conn, nf, hist
+VARIABLES n, ann, fk, sState, sErr, sent, rState, rErr, got, wire, conn, nf, hist
 
-mvars == <<n, sState, sErr, sent, rState, rErr, got, wire, conn, nf>>
+mvars == <<n, ann, fk, sState, sErr, sent, rState, rErr, got, wire, conn, nf>>
 vars  == <<mvars, hist>>
 
 FIN == 99999
 File(k) == [i \in 1..k |-> i]
 S5Faults == {"Flip", "Drop", "Dup", "Swap", "Cut"}
 
+AnnSize(a) == a \in {"both", "size"}
+AnnHash(a) == a \in {"both", "hash"}
+
 Init ==
-    /\ n \in Sizes
+    /\ n \in Sizes /\ ann \in Anns /\ fk = "none"
     /\ sState = "Idle" /\ sErr = "NoError" /\ sent = 0
     /\ rState = "None" /\ rErr = "NoError" /\ got = <<>>
     /\ wire = <<>> /\ conn = "none" /\ nf = 0 /\ hist = <<>>
@@ -46,29 +53,32 @@ Start ==
     /\ sState = "Idle"
     /\ sState' = "Transfer" /\ rState' = "Transfer" /\ conn' = "open"
     /\ Log([a |-> "Start"])
-    /\ UNCHANGED <<n, sErr, sent, rErr, got, wire, nf>>
+    /\ UNCHANGED <<n, ann, fk, sErr, sent, rErr, got, wire, nf>>
 
 SWrite ==
     /\ sState = "Transfer" /\ conn = "open" /\ sent < n
     /\ wire' = Append(wire, sent + 1) /\ sent' = sent + 1
     /\ Log([a |-> "SWrite"])
-    /\ UNCHANGED <<n, sState, sErr, rState, rErr, got, conn, nf>>
+    /\ UNCHANGED <<n, ann, fk, sState, sErr, rState, rErr, got, conn, nf>>
 
 \* everything written (also: nothing to write): success, close the connection
 SDone ==
     /\ sState = "Transfer" /\ conn = "open" /\ sent = n
     /\ sState' = "Finished" /\ sErr' = "NoError" /\ wire' = Append(wire, FIN) /\ conn' = "closed"
     /\ Log([a |-> "SDone"])
-    /\ UNCHANGED <<n, sent, rState, rErr, got, nf>>
+    /\ UNCHANGED <<n, ann, fk, sent, rState, rErr, got, nf>>
 
 \* the sender notices that the connection broke
 SDisc ==
     /\ sState = "Transfer" /\ conn = "cut"
-    /\ sState' = "Finished" /\ sErr' = (IF sent = n THEN "NoError" ELSE "Protocol")
+    /\ sState' = "Finished" /\ sErr' = (IF AnnSize(ann) /\ n > 0 /\ sent # n THEN "Protocol" ELSE "NoError")
     /\ Log([a |-> "SDisc"])
-    /\ UNCHANGED <<n, sent, rState, rErr, got, wire, conn, nf>>
+    /\ UNCHANGED <<n, ann, fk, sent, rState, rErr, got, wire, conn, nf>>
 
-Check(g) == IF g = File(n) THEN "NoError" ELSE "FileCorrupt"
+\* checkData: compares what the offer announced (`ann`: size and/or hash; a size of 0 = none)
+Check(g) == IF /\ (AnnSize(ann) /\ n > 0) => Len(g) = n
+               /\ AnnHash(ann) => g = File(n)
+            THEN "NoError" ELSE "FileCorrupt"
 
 RRead ==
     /\ wire # <<>> /\ Head(wire) # FIN
@@ -76,19 +86,19 @@ RRead ==
     /\ IF rState = "Transfer"
        THEN LET g == Append(got, Head(wire)) IN
             /\ got' = g
-            /\ IF n > 0 /\ Len(g) >= n
+            /\ IF AnnSize(ann) /\ n > 0 /\ Len(g) >= n      \* the announced size is there
                THEN rState' = "Finished" /\ rErr' = Check(g)
                ELSE UNCHANGED <<rState, rErr>>
        ELSE UNCHANGED <<got, rState, rErr>>      \* finished: what still arrives is ignored
     /\ Log([a |-> "RRead"])
-    /\ UNCHANGED <<n, sState, sErr, sent, conn, nf>>
+    /\ UNCHANGED <<n, ann, fk, sState, sErr, sent, conn, nf>>
 
 RDisc ==
     /\ wire # <<>> /\ Head(wire) = FIN
     /\ wire' = Tail(wire)
     /\ IF rState = "Transfer" THEN rState' = "Finished" /\ rErr' = Check(got) ELSE UNCHANGED <<rState, rErr>>
     /\ Log([a |-> "RDisc"])
-    /\ UNCHANGED <<n, sState, sErr, sent, got, conn, nf>>
+    /\ UNCHANGED <<n, ann, fk, sState, sErr, sent, got, conn, nf>>
 
 Fault(k) ==
     /\ nf < MaxFaults /\ k \in S5Faults
@@ -100,9 +110,9 @@ Fault(k) ==
          [] k = "Swap" -> /\ rest # <<>> /\ Head(rest) # FIN
                           /\ wire' = <<Head(rest), h>> \o Tail(rest) /\ UNCHANGED conn
          [] k = "Cut"  -> wire' = <<FIN>> /\ conn' = "cut"
-    /\ nf' = nf + 1
+    /\ nf' = nf + 1 /\ fk' = k
     /\ Log([a |-> "Fault", k |-> k, u |-> Head(wire)])
-    /\ UNCHANGED <<n, sState, sErr, sent, rState, rErr, got>>
+    /\ UNCHANGED <<n, ann, sState, sErr, sent, rState, rErr, got>>
 
 Next == Start \/ SWrite \/ SDone \/ SDisc \/ RRead \/ RDisc \/ \E k \in FaultKinds : Fault(k)
 
@@ -111,13 +121,18 @@ FairSpec == Spec /\ WF_vars(Start) /\ WF_vars(SWrite) /\ WF_vars(SDone) /\ WF_va
 
 (* --- properties: the same predicates as Ibb ------------------------------ *)
 Success(st, er) == st = "Finished" /\ er = "NoError"
-P_Safe(rs, re, eq)        == Success(rs, re) => eq
-P_FaultDetected(nflt, rs, re) == nflt = 1 => ~Success(rs, re)
+\* with a hash every single fault is noticed; with the size alone only a stream that ends short
+\* (whether units of the right total length are the right ones depends on the hash; a duplicate
+\* makes the announced size arrive early, with read boundaries deciding what is seen); with
+\* nothing announced nothing can be noticed: only the fault-free clause is claimed
+Detectable(k, a) == AnnHash(a) \/ (a = "size" /\ k \in {"Drop", "Cut"})
+P_Safe(a, rs, re, eq)     == (AnnHash(a) /\ Success(rs, re)) => eq
+P_FaultDetected(a, k, nflt, rs, re) == (nflt = 1 /\ Detectable(k, a)) => ~Success(rs, re)
 P_CleanSuccess(nflt, q, rs, re, ss, se, eq) == (q /\ nflt = 0) => (Success(rs, re) /\ Success(ss, se) /\ eq)
 
 AtRest == sState = "Finished" /\ wire = <<>>
-Safe          == P_Safe(rState, rErr, got = File(n))
-FaultDetected == P_FaultDetected(nf, rState, rErr)
+Safe          == P_Safe(ann, rState, rErr, got = File(n))
+FaultDetected == P_FaultDetected(ann, fk, nf, rState, rErr)
 CleanSuccess  == P_CleanSuccess(nf, AtRest, rState, rErr, sState, sErr, got = File(n))
 TypeOK ==
     /\ sent \in 0..n /\ nf \in 0..MaxFaults
@@ -126,8 +141,8 @@ TypeOK ==
 \* both jobs finish in every fair behaviour, whatever the proxy does
 Termination == <>[](sState = "Finished" /\ rState = "Finished" /\ wire = <<>>)
 
-Reinit(k) ==
-    /\ n' = k
+Reinit(k, a) ==
+    /\ n' = k /\ ann' = a /\ fk' = "none"
     /\ sState' = "Idle" /\ sErr' = "NoError" /\ sent' = 0
     /\ rState' = "None" /\ rErr' = "NoError" /\ got' = <<>>
     /\ wire' = <<>> /\ conn' = "none" /\ nf' = 0 /\ hist' = <<>>
